@@ -57,11 +57,16 @@ PAYLOAD = "payload"          # pseudo item ("payload", "fill-array-data" | "pack
 PAYLOAD_BYTES = 12           # its payload, and the payload itself IN THE MIDDLE of the method (4-byte aligned by a leading nop)
 
 
+PAD = "pad"                  # pseudo item ("pad", n): n nop code units (pushes the following references to large offsets)
+
+
 def kind_of(op):
-    return None if op == PAYLOAD else D.OPC[D.NAME2OP[op]][2]
+    return None if op in (PAYLOAD, PAD) else D.OPC[D.NAME2OP[op]][2]
 
 
 def item_len(item, off=0):
+    if item[0] == PAD:
+        return 2 * item[1]
     if item[0] == PAYLOAD:
         return (2 if off % 4 else 0) + 6 + 2 + PAYLOAD_BYTES
     return 2 * D.units(D.OPC[D.NAME2OP[item[0]]][1])
@@ -97,6 +102,9 @@ def emit(body):
     def f(ix):
         b = bytearray()
         for op, tgt in body:
+            if op == PAD:
+                b += D.enc("nop") * tgt
+                continue
             if op == PAYLOAD:
                 b += _payload_item(tgt, len(b))
                 continue
@@ -219,14 +227,37 @@ def item_of(code):
     return ALPHABET[code] if code >= 0 else ALPHABET_X[-code - 1]
 
 
-def xm3(seqs, second_first=False):
+FAR_UNITS = 0x8000           # pad of the 'far' representatives: the reference sits at byte offset 0x10000 (> 16 bit)
+FAR_ITEMS = [("invoke-virtual", "m:B.t"), ("invoke-static/range", "m:E.x"), ("invoke-super", "m:A.m"), ("iget", "f:A.f"),
+             ("sput-boolean", "f:B.s"), ("iput-wide", "f:D.k"), ("const-string", "s:s1"), ("const-string/jumbo", "s:"),
+             ("new-instance", "t:" + "LB;"), ("const-class", "t:" + "Lext/E;")]
+
+
+def far_codes():
+    """Alphabet codes of the representatives that are also generated behind a 0x8000-unit pad."""
+    out = []
+    for op, t in FAR_ITEMS:
+        tgt = {"m": METHODS, "f": FIELDS}.get(t[0], {}).get(t[2:], t[2:])
+        out.append(ALPHABET.index((op, tgt)))
+    return out
+
+
+def gen_name(k, variant=0):
+    """Name of the k-th generated method of A: 'm<k>' (sorted BEFORE the fixed A.n) or, variant bit 1, 'z<k>' (AFTER A.n)."""
+    return ("z%d" if variant & 2 else "m%d") % k
+
+
+def xm3(seqs, second_first=False, variant=0, far=False):
     """The three-class model: DEX0 = {A, B}, DEX1 = {D}.  seqs: list of K sequences of item codes (see item_of); sequence k is
     the body of A.m<k> (K = 1: one program per model; K > 1: a batch, one DEX holding K programs).  The item target
     'A.m' means the method itself.  A.n and D.r have fixed bodies so that targets are shared across methods and DEX files."""
+    # variant bit 0: class_defs order B, A instead of A, B; bit 1: generated methods named z<k> (processed after A.n);
+    # far: every body is preceded by FAR_UNITS nops
     ms = []
     for k, seq in enumerate(seqs):
-        me = (A, "m%d" % k, "V", ())
-        ms.append(Meth(me[1], body=[(op, me if tgt == METHODS["A.m"] else tgt) for op, tgt in map(item_of, seq)]))
+        me = (A, gen_name(k, variant), "V", ())
+        ms.append(Meth(me[1], body=([(PAD, FAR_UNITS)] if far else []) +
+                       [(op, me if tgt == METHODS["A.m"] else tgt) for op, tgt in map(item_of, seq)]))
     n_body = [("invoke-static", METHODS["E.x"]), ("invoke-virtual", METHODS["B.u"]), ("invoke-direct/range", METHODS["B.t"]),
               ("sget-object", FIELDS["B.s"]), ("iput", FIELDS["A.f"]), ("const-string", "s2"), ("const-class", E),
               ("invoke-virtual", METHODS["OA.clone"]), ("const-string/jumbo", "")]
@@ -239,13 +270,23 @@ def xm3(seqs, second_first=False):
                      Meth("clone", OBJ, (), body=[("const-class", A), ("iget-wide", FIELDS["B.g2"]), ("iput", FIELDS["B.g"])])],
             declared=[("u", "I", ())])
     d = Cls(DD, ifields=[("k", "I")], methods=[Meth("r", body=r_body)])
-    return Model([[d], [a, b]] if second_first else [[a, b], [d]])
+    ab = [b, a] if variant & 1 else [a, b]
+    return Model([[d], ab] if second_first else [ab, [d]])
 
 
-def sequences(maxlen):
-    """All sequences of item codes of length 0..maxlen over ALPHABET, simplest first."""
-    for n in range(maxlen + 1):
-        yield from itertools.product(range(len(ALPHABET)), repeat=n)
+def decoy(which="xm3"):
+    """A fixed OTHER program that uses the SAME class names (which='xm3': LA; LB; LD;  which='c16': LC0;..LC3;) with other members,
+    other bodies and other strings: analysed (results ignored) before every judged analysis so that state carried from one
+    Analysis / DEX to the next in the same process shows up -- and reproduces in a fresh process."""
+    def cls(name, other):
+        body = [("const-string", "s1"), ("const-string", "k0"), ("new-instance", name), ("new-instance", other),
+                ("sget", (other, "s", "J")), ("iget-wide", (name, "f", "J")), ("invoke-static", (other, "t", "V", ("I", "J"))),
+                ("invoke-virtual", (E, "x", "V", ("I",))), ("invoke-virtual", (other, "m0", "V", ())), ("const-string/jumbo", "")]
+        return Cls(name, ifields=[("f", "J"), ("g", "Ljava/lang/String;"), ("k", "J")], sfields=[("s", "J")],
+                   methods=[Meth("m0", body=body), Meth("n", "I", ("I",), body=None), Meth("r", "I", (), body=None),
+                            Meth("t", "V", ("I", "J"), static=True, body=[("const-class", other)])])
+    names = [A, B, DD] if which == "xm3" else [cname(i) for i in range(4)]
+    return Model([[cls(n, names[(i + 1) % len(names)]) for i, n in enumerate(names)]])
 
 
 # ------------------------------------------------------------------------------------------------ C16
@@ -259,7 +300,7 @@ def cname(i):
 
 def interaction(n, matrix, blocks):
     """n classes C0..Cn-1; matrix[i][j] (i != j) in 0..5 says what Ci.m does with Cj; blocks: ordered set partition of
-    range(n) = the DEX files in add order."""
+    range(n) = the DEX files in add order; the order INSIDE a block is the class_defs order of that DEX file."""
     classes = []
     for i in range(n):
         body = [("const-string", "k%d" % i), ("iget", (cname(i), "f", "I")), ("invoke-static", (E, "x", "V", ("I",))),
@@ -293,6 +334,16 @@ def ordered_partitions(n):
                 for tail in rec(left):
                     yield [list(first)] + tail
     return sorted(rec(list(range(n))), key=lambda p: (len(p), p))
+
+
+def ordered_partitions_with_class_order(n):
+    """Every ordered set partition with every class_defs order inside each block: 24 for n = 3, 192 for n = 4
+    (blocks in index order first, so the first element is the single DEX in canonical order)."""
+    out = []
+    for p in ordered_partitions(n):
+        for perm in itertools.product(*[itertools.permutations(b) for b in p]):
+            out.append([list(b) for b in perm])
+    return out
 
 
 def matrices(n, values):
